@@ -138,8 +138,13 @@ def programs(tier):
 
 def check_one(job):
     label, src, size = job[:3]
-    procname = job[3] if len(job) > 3 else "prog"
+    procname = job[3] if len(job) > 3 and job[3] is not None else "prog"
     OPTS = dict(globals()["OPTS"], procname=procname)
+    variant = job[4] if len(job) > 4 else "full"
+    if variant in ("noprefix", "bare"):
+        OPTS["add_standard_prefix"] = False
+    if variant in ("nosuffix", "bare"):
+        OPTS["add_suffix"] = False
     st = smt.Stats()
     smt.STATS = st
     out = {"job": job, "sigs": [], "status": None, "nprocs": 0}
@@ -259,7 +264,10 @@ def run(tier):
     smt.reset_stats()
     progs = programs(tier)
     jobs = [(p[0], p[1], size) + tuple(p[2:3]) for p in progs for size in (32, 40)]
-    ctx.bounds.update({"programs": len(progs), "sizes": [32, 40], "options": OPTS})
+    # the bundle does not depend on whether the standard prologue / the error-handler suffix is emitted (the prologue is the
+    # only RUN of many programs' output; without it the program's own calls are all there is)
+    jobs += [(p[0] + ":" + variant, p[1], 40, None, variant) for p in progs if p[0] in ("single", "two-runs-one-line", "text-run-in-string", "text-run-in-comment") for variant in ("noprefix", "nosuffix", "bare")]
+    ctx.bounds.update({"programs": len(progs), "sizes": [32, 40], "options": OPTS, "option_variants": ["full", "noprefix", "nosuffix", "bare (single-statement programs)"]})
     for rel in ("coco/b09/procbank.py", "coco/b09/compiler.py"):
         ctx.encode(rel + " (executed: real convert())", repo_source(rel))
     ctx.encode("coco/resources/ecb.b09", tvlib.library_text())
@@ -274,7 +282,7 @@ def run(tier):
         else:
             ctx.stats["identity"] += 1
         for sig, detail in r["sigs"]:
-            ctx.violation(sig, f"{r['job'][1]!r} (size {r['job'][2]}) -> {detail}", {"source": r["job"][1], "default_str_storage": r["job"][2], "procname": (r["job"][3] if len(r["job"]) > 3 else "prog")})
+            ctx.violation(sig, f"{r['job'][1]!r} (size {r['job'][2]}) -> {detail}", {"source": r["job"][1], "default_str_storage": r["job"][2], "procname": (r["job"][3] if len(r["job"]) > 3 and r["job"][3] is not None else "prog"), "variant": (r["job"][4] if len(r["job"]) > 4 else "full")})
     for r in results[:: max(1, len(results) // 6)]:
         ctx.sample({"source": r["job"][1], "size": r["job"][2], "status": r["status"], "procedures_in_bundle": r["nprocs"]})
     regex_lemmas(ctx)
@@ -287,7 +295,7 @@ def run(tier):
 
 def replay(rec):
     if "source" in rec:
-        r = check_one(("replay", rec["source"], rec.get("default_str_storage", 32), rec.get("procname", "prog")))
+        r = check_one(("replay", rec["source"], rec.get("default_str_storage", 32), rec.get("procname", "prog"), rec.get("variant", "full")))
         print(r["sigs"])
         return bool(r["sigs"])
     return True
